@@ -825,6 +825,152 @@ theorem bend_path (s : Scene) (ph pv : Seg × List LV) (hh : ph ∈ s.lines.hs) 
   have l2 := leg_v s pv hv _ b hcy hb (fun e => hbne e.symm) (fun h => by simp [VK.isConn] at h) fb hmidv
   exact l1.trans l2
 
+/-- strictly between, either order -/
+def Btw (a b t : Rat) : Prop := (a < t ∧ t < b) ∨ (b < t ∧ t < a)
+
+/-- **Hanan-type statement, one bend, all orientations (`hanan_one_bend_partial`).**  End points `A`
+    (number `i`) and `B` (number `j`) on different rows and different columns; corner `(B.x, A.y)` (for the
+    other corner exchange `A` and `B`); `A` may be left horizontally towards the corner and `B` vertically
+    towards it (effective flags); boxes of positive size; the row `A.y` between `A` and the corner and the
+    column `B.x` between the corner and `B` cross no box and carry no other live end point (corner included).
+    Then the model graph contains the route `A` — corner — `B` (`UPath`: edges walked in either direction),
+    which has Manhattan length and one bend: a minimum of length + penalty·bends over all orthogonal paths
+    between two points in general position. -/
+theorem hanan_one_bend_partial (s : Scene) (i j : Nat) (A B : Conn)
+    (hA : s.fixDirs[i]? = some A) (hB : s.fixDirs[j]? = some B)
+    (hxne : A.x ≠ B.x) (hyne : A.y ≠ B.y)
+    (hAf : (A.x < B.x → A.d.right = true) ∧ (B.x < A.x → A.d.left = true))
+    (hBf : (A.y < B.y → B.d.up = true) ∧ (B.y < A.y → B.d.down = true))
+    (hwf : ∀ R ∈ s.rects, R.x0 < R.x1 ∧ R.y0 < R.y1)
+    (hrow : ∀ R ∈ s.rects, R.y0 < A.y → A.y < R.y1 → (R.x1 ≤ A.x ∧ R.x1 ≤ B.x) ∨ (A.x ≤ R.x0 ∧ B.x ≤ R.x0))
+    (hcol : ∀ R ∈ s.rects, R.x0 < B.x → B.x < R.x1 → (R.y1 ≤ A.y ∧ R.y1 ≤ B.y) ∨ (A.y ≤ R.y0 ∧ B.y ≤ R.y0))
+    (hothersRow : ∀ (k : Nat) (c : Conn), s.fixDirs[k]? = some c → c.y = A.y → Btw A.x B.x c.x ∨ c.x = B.x → False)
+    (hothersCol : ∀ (k : Nat) (c : Conn), s.fixDirs[k]? = some c → c.x = B.x → Btw A.y B.y c.y ∨ c.y = A.y → False) :
+    UPath s.graph ⟨A.x, A.y, .conn i⟩ ⟨B.x, B.y, .conn j⟩ := by
+  have hlA : A.d.none = false := by
+    rcases lt_or_gt_of_ne hxne with h | h
+    · simp [Dirs.none, hAf.1 h]
+    · simp [Dirs.none, hAf.2 h]
+  have hcoord : ∀ c ∈ s.fixDirs, (s.lo ≤ c.x ∧ c.x ≤ s.hi) ∧ (s.lo ≤ c.y ∧ c.y ≤ s.hi) := by
+    intro c hc
+    obtain ⟨c', hc', e1, e2⟩ := fixDirs_pos s c hc
+    have hm : ∀ z ∈ [c'.x, c'.y], z ∈ s.coords := by
+      intro z hz
+      unfold Scene.coords
+      exact List.mem_append_right _ (List.mem_flatMap.mpr ⟨c', hc', hz⟩)
+    rw [← e1, ← e2]
+    exact ⟨lo_hi_bound s _ (hm _ (by simp)), lo_hi_bound s _ (hm _ (by simp))⟩
+  have hAm := List.mem_of_getElem? hA
+  have hBm := List.mem_of_getElem? hB
+  -- the row of A contains the corner
+  obtain ⟨pA, hpA, yA, vA, bA, fA, lA, rA⟩ := endpoint_on_hline s i A hA hlA
+  have hrowreach : pA.1.b ≤ B.x ∧ B.x ≤ pA.1.f := by
+    rcases lt_or_gt_of_ne hxne with h | h
+    · refine ⟨by linarith, le_trans ?_ (rA (hAf.1 h))⟩
+      rcases (firstBelow_is_first_blocking_side s.hi s.rects A.x A.y).2 with e | ⟨R, hR, h0, h1, hge, e⟩
+      · rw [e]; exact (hcoord B hBm).1.2
+      · rw [e]
+        rcases hrow R hR h0 h1 with hc | hc
+        · have := (hwf R hR).1; linarith
+        · exact hc.2
+    · refine ⟨le_trans (lA (hAf.2 h)) ?_, by linarith⟩
+      rcases (firstAbove_is_first_blocking_side s.lo s.rects A.x A.y).2 with e | ⟨R, hR, h0, h1, hle, e⟩
+      · rw [e]; exact (hcoord B hBm).1.1
+      · rw [e]
+        rcases hrow R hR h0 h1 with hc | hc
+        · exact hc.2
+        · have := (hwf R hR).1; linarith
+  -- the column of B contains the corner
+  have hcolline : ∃ pv ∈ s.lines.vs, pv.1.p = B.x ∧ (⟨B.y, .conn j⟩ : LV) ∈ pv.2 ∧ pv.1.b ≤ A.y ∧ A.y ≤ pv.1.f := by
+    rcases lt_or_gt_of_ne hyne with h | h
+    · have hroom : firstAbove s.lo (activeAt (s.rects.map Rect.tr) B.x) B.y B.x ≤ A.y := by
+        rcases (firstAbove_is_first_blocking_side s.lo (s.rects.map Rect.tr) B.y B.x).2 with e | ⟨R', hR', h0, h1, hle, e⟩
+        · rw [e]; exact (hcoord A hAm).2.1
+        · rw [e]
+          obtain ⟨R, hR, rfl⟩ := List.mem_map.mp hR'
+          simp only [Rect.tr] at h0 h1 hle ⊢
+          rcases hcol R hR h0 h1 with hc | hc
+          · exact hc.1
+          · have := (hwf R hR).2; linarith
+      obtain ⟨pv, hpv, xv, vB, bv, fv⟩ := (endpoint_on_vline s j B hB).1 (hBf.1 h) (lt_of_le_of_lt hroom h)
+      exact ⟨pv, hpv, xv, vB, le_trans bv hroom, le_trans (le_of_lt h) fv⟩
+    · have hroom : A.y ≤ firstBelow s.hi (activeAt (s.rects.map Rect.tr) B.x) B.y B.x := by
+        rcases (firstBelow_is_first_blocking_side s.hi (s.rects.map Rect.tr) B.y B.x).2 with e | ⟨R', hR', h0, h1, hge, e⟩
+        · rw [e]; exact (hcoord A hAm).2.2
+        · rw [e]
+          obtain ⟨R, hR, rfl⟩ := List.mem_map.mp hR'
+          simp only [Rect.tr] at h0 h1 hge ⊢
+          rcases hcol R hR h0 h1 with hc | hc
+          · have := (hwf R hR).2; linarith
+          · exact hc.1
+      obtain ⟨pv, hpv, xv, vB, bv, fv⟩ := (endpoint_on_vline s j B hB).2 (hBf.2 h) (lt_of_lt_of_le h hroom)
+      exact ⟨pv, hpv, xv, vB, le_trans bv (le_of_lt h), le_trans hroom fv⟩
+  obtain ⟨pv, hpv, xv, vB, bv, fv⟩ := hcolline
+  have hcr : crosses pA.1 pv.1 = true := by
+    unfold crosses
+    simp only [Bool.and_eq_true, decide_eq_true_eq]
+    rw [yA, xv]
+    exact ⟨⟨⟨bv, fv⟩, hrowreach.1⟩, hrowreach.2⟩
+  -- no end point vertex at the corner, none strictly inside the legs
+  have hnode : ∀ k, (⟨pv.1.p, .conn k⟩ : LV) ∉ pA.2 := by
+    intro k hk
+    rw [xv] at hk
+    obtain ⟨c', hc', ex, ey⟩ := conn_vertex_provenance s pA hpA B.x k hk
+    exact hothersRow k c' hc' (by rw [ey, yA]) (Or.inr ex)
+  have ha := mem_toBPs_of_mem (dirs := dirsX s.fixDirs) vA
+  have hb := mem_toBPs_of_mem (dirs := dirsY s.fixDirs) vB
+  have hmidh : ∀ c ∈ toBPs (dirsX s.fixDirs) pA.2,
+      (A.x < c.t ∧ c.t < pv.1.p) ∨ (pv.1.p < c.t ∧ c.t < A.x) → c.k.isConn = false := by
+    intro c hc hb'
+    obtain ⟨q, hq, et, ek⟩ := mem_toBPs hc
+    cases hk : c.k with
+    | node => rfl
+    | conn k' =>
+      exfalso
+      have hq' : (⟨c.t, .conn k'⟩ : LV) ∈ pA.2 := by
+        have : q = ⟨c.t, .conn k'⟩ := by
+          rcases q with ⟨qt, qk⟩
+          simp only at et ek
+          rw [et, ← ek, hk]
+        rw [← this]; exact hq
+      obtain ⟨c', hc', ex, ey⟩ := conn_vertex_provenance s pA hpA c.t k' hq'
+      rw [xv] at hb'
+      exact hothersRow k' c' hc' (by rw [ey, yA]) (Or.inl (by rw [ex]; exact hb'))
+  have hmidv : ∀ c ∈ toBPs (dirsY s.fixDirs) pv.2,
+      (pA.1.p < c.t ∧ c.t < B.y) ∨ (B.y < c.t ∧ c.t < pA.1.p) → c.k.isConn = false := by
+    intro c hc hb'
+    obtain ⟨q, hq, et, ek⟩ := mem_toBPs hc
+    cases hk : c.k with
+    | node => rfl
+    | conn k' =>
+      exfalso
+      have hq' : (⟨c.t, .conn k'⟩ : LV) ∈ pv.2 := by
+        have : q = ⟨c.t, .conn k'⟩ := by
+          rcases q with ⟨qt, qk⟩
+          simp only at et ek
+          rw [et, ← ek, hk]
+        rw [← this]; exact hq
+      obtain ⟨c', hc', ex, ey⟩ := conn_vertex_provenance_v s pv hpv c.t k' hq'
+      rw [yA] at hb'
+      exact hothersCol k' c' hc' (by rw [ex, xv]) (Or.inl (by rw [ey]; exact hb'))
+  have fa : (VK.conn i).isConn = true → (if A.x < pv.1.p then (dirsX s.fixDirs (.conn i)).2 else (dirsX s.fixDirs (.conn i)).1) = true := by
+    intro _
+    rw [xv]
+    rcases lt_or_gt_of_ne hxne with h | h
+    · simp [h, dirsX, hA, hAf.1 h]
+    · have : ¬ A.x < B.x := not_lt.mpr (le_of_lt h)
+      simp [this, dirsX, hA, hAf.2 h]
+  have fb : (VK.conn j).isConn = true → (if pA.1.p < B.y then (dirsY s.fixDirs (.conn j)).1 else (dirsY s.fixDirs (.conn j)).2) = true := by
+    intro _
+    rw [yA]
+    rcases lt_or_gt_of_ne hyne with h | h
+    · simp [h, dirsY, hB, hBf.1 h]
+    · have : ¬ A.y < B.y := not_lt.mpr (le_of_lt h)
+      simp [this, dirsY, hB, hBf.2 h]
+  have := bend_path s pA pv hpA hpv hcr hnode _ _ ha hb (by simp only; rw [xv]; exact hxne)
+    (by simp only; rw [yA]; exact fun e => hyne e.symm) fa fb hmidh hmidv
+  simpa [yA, xv] using this
+
 /-! ### non-vacuity: a closed scene (one routing box, one connector with a restricted source) -/
 
 /-- box [2,4]×[2,4]; source (0,3) may only be left to the Right, target (6,3) in all directions -/
@@ -867,5 +1013,10 @@ def demoScene3 : Scene :=
 
 -- non-vacuity of `sweep_scanline_is_activeAt`: two boxes sharing a side line; the scan line at the three positions
 #guard (sweepLines [⟨0, 0, 1, 2⟩, ⟨3, 2, 4, 5⟩] [0, 2, 5] []).map (·.2) == [[0], [0, 1], [1]]
+
+-- non-vacuity of `hanan_one_bend_partial` in another orientation: `demoScene3` with the roles exchanged,
+-- A = (6,9) (number 1), B = (0,3) (number 0), corner (0,9): the route B — (0,9) — A is in the graph
+#guard demoScene3.graph.contains (⟨0, 3, .conn 0⟩, ⟨0, 5, .node⟩) && demoScene3.graph.contains (⟨0, 7, .node⟩, ⟨0, 9, .node⟩) &&
+       demoScene3.graph.contains (⟨0, 9, .node⟩, ⟨2, 9, .node⟩) && demoScene3.graph.contains (⟨4, 9, .node⟩, ⟨6, 9, .conn 1⟩)
 
 end AdaptaVerif.Props.C05OrthVis
